@@ -839,3 +839,44 @@ Proof.
   - intros [m [He Hm]]. apply key_with_prefix_inj in He. destruct He as [Hp Hn]. subst m. split; [now symmetry | exact Hm].
   - intros [Hp Hn]. exists n. split; [rewrite Hp; reflexivity | exact Hn].
 Qed.
+
+(* ------------------------------------------------------------------ dictionary form *)
+Lemma lookup_orientations_notin k (b : bdict) : ~ In k (map fst b) -> lookup k (dict_orientations b) = None.
+Proof.
+  induction b as [|[k' [f o]] b IH]; intros Hn; simpl; [reflexivity|].
+  simpl in Hn. destruct o as [o|]; simpl.
+  - destruct (String.eqb_spec k k') as [->|Hne]; [exfalso; apply Hn; left; reflexivity|]. apply IH. tauto.
+  - apply IH. tauto.
+Qed.
+
+(* dict_roundtrip: for pairwise distinct names every boundary comes back with its facets and with exactly its flags *)
+Theorem dict_roundtrip_model (b : bdict) : NoDup (map fst b) -> dict_load (dict_boundaries b) (dict_orientations b) = b.
+Proof.
+  unfold dict_load, dict_boundaries. rewrite map_map. simpl.
+  induction b as [|[k [f o]] b IH]; intros Hn; simpl; [reflexivity|].
+  inversion Hn as [|? ? Hk Hn']; subst. f_equal.
+  - destruct o as [o|]; simpl.
+    + rewrite String.eqb_refl. reflexivity.
+    + rewrite lookup_orientations_notin by exact Hk. reflexivity.
+  - rewrite <- (IH Hn') at 2. apply map_ext_in. intros [k' [f' o']] Hin. simpl.
+    destruct o as [o|]; simpl; [|reflexivity].
+    destruct (String.eqb_spec k' k) as [->|Hne]; [|reflexivity].
+    exfalso. apply Hk. apply in_map_iff. exists (k, (f', o')). split; [reflexivity | exact Hin].
+Qed.
+
+(* ------------------------------------------------------------------ cell-data key scheme *)
+Lemma split_on_no_char c s : has_char c s = false -> split_on c s = [s].
+Proof.
+  induction s as [|a s IH]; simpl; intros H; [reflexivity|].
+  apply orb_false_iff in H. destruct H as [Ha Hs]. rewrite Ha, (IH Hs). reflexivity.
+Qed.
+
+Import String Ascii.
+(* cell-data key scheme: a tag name without ':' is read back unchanged together with its kind *)
+Theorem key_scheme_roundtrip (name : String.string) :
+  has_char colon name = false ->
+  parse_key (String.append "skfem:s:"%string name) = ("skfem"%string, "s"%string, name) /\
+  parse_key (String.append "skfem:b:"%string name) = ("skfem"%string, "b"%string, name).
+Proof.
+  intros H. unfold parse_key. simpl. rewrite (split_on_no_char _ _ H). split; reflexivity.
+Qed.
